@@ -84,9 +84,16 @@ func (g *G) coin(label string, oneIn int) bool {
 }
 func pick[T any](g *G, label string, xs []T) T { return rapid.SampledFrom(xs).Draw(g.T, label) }
 
+// pathLike: what people put into cache settings, command lines and artifact lists - trailing and
+// doubled slashes, dot segments, globs, tildes
+var pathLike = []string{"vendor/", "out//", "a///", "./", "/", "//", ".cache", "node_modules/", "~/.m2", "**/*.log", "tmp/../tmp/", "dir/sub//", "C:\\cache\\", "a/./b/", " spaced dir/ ", "trailing-dot."}
+
 func (g *G) s(role string) string {
 	if g.C.Str != nil {
 		return g.C.Str(g.T, role)
+	}
+	if role == "cache" && g.coin("pathlike", 3) {
+		return pick(g, "path", pathLike)
 	}
 	return strs.S().Draw(g.T, role)
 }
@@ -1116,6 +1123,17 @@ func (g *G) matrix() *yaml.Node {
 						l = SeqNode(true, l)
 					}
 					dims = []string{""}
+					if g.coin("anonbyname", 3) {
+						// the anonymous dimension under its own name, the empty key, and nothing else: the third
+						// spelling of a plain list (always written back out as a list); with a blank value now
+						// and then, which is a value like any other
+						g.feat("matrix-anonymous-by-name")
+						if g.coin("blankvalue", 2) {
+							at := g.intn("blankat", 0, len(l.Content))
+							l.Content = append(l.Content[:at:at], append([]*yaml.Node{Scalar("!!str", "", yaml.DoubleQuotedStyle)}, l.Content[at:]...)...)
+						}
+						return MapNode(g.coin("flow", 2), Scalar("!!str", "", yaml.DoubleQuotedStyle), l)
+					}
 					return l
 				}
 				g.feat("matrix-setup-map")
